@@ -40,8 +40,35 @@ def boundary(ctx, run):
     return out
 
 
+def full_key_after_scale_switch(rng, cid0):
+    """a key filled to its limit by more holders than the inline holder array takes (the holder list switches to the
+    map-indexed queue): a holder in the middle leaves, another LockId takes the free slot, the first one comes back with
+    its old LockId -- it is a NEW holder now and must be refused (the key is full), whatever the map still remembers"""
+    cases = []
+    for j in range(2):
+        n = rng.choice([226, 240, 300])
+        key = 51 + j
+        lines = ["case %d 1000000 1 %d" % (cid0 + j, j)]
+        rid = 780000 + 2000 * j
+        for i in range(n):
+            lines.append("req 1 L %d 0 %d %d 0 0 0 600 %d 0 -" % (rid, 9500 + i, key, n - 1)); rid += 1
+        lines.append("req 2 L %d 0 9499 %d 0 0 0 600 %d 0 -" % (rid, key, n - 1)); rid += 1          # full: TIMEOUT
+        gone = 9500 + n - rng.choice([3, 20, 40])
+        lines.append("req 1 U %d 0 %d %d 0 0 0 0 0 0 -" % (rid, gone, key)); rid += 1
+        lines.append("req 2 L %d 0 9498 %d 0 0 0 600 %d 0 -" % (rid, key, n - 1)); rid += 1          # takes the free slot
+        lines.append("req 1 L %d 0 %d %d 0 0 0 600 %d 0 -" % (rid, gone, key, n - 1)); rid += 1     # old LockId again: full
+        lines.append("req 1 L %d 0 %d %d 0 0 0 600 %d 3 -" % (rid, gone, key, n - 1)); rid += 1     # ... also with Rcount 3
+        lines += ["adv 0", "role 1"]
+        for i in range(n + 6):
+            lines.append("req 1 U %d 1 0 %d 0 0 0 0 0 0 -" % (rid, key)); rid += 1
+        lines += ["adv 1", "sweept", "sweepe", "adv 700", "sweept", "sweepe"] + ["adv 1", "sweept", "sweepe"] * 12
+        lines.append("end")
+        cases.append(lines)
+    return cases
+
+
 def run(ctx):
     if getattr(ctx, "replay", None):
         return _engine.replay(ctx, "C01", MONITORS)
     return _engine.run_engine_check(ctx, "C01", PROFILES, MONITORS, n_quick=500, n_thorough=20000,
-                                    extra_targets=["Codec/DecisionBridge.vo"], impl_only=boundary)
+                                    extra_targets=["Codec/DecisionBridge.vo"], impl_only=boundary, extra_cases=full_key_after_scale_switch)
